@@ -62,7 +62,8 @@ FoldOrderFree(ans) == \A o \in Perms(Plugins(ans)) : Fold(ans, o) = Merged(ans)
 
 (* Judging an observed result: result[n] = [off, cap, u6, r6] with u6, r6 = value x 10^6 rounded. *)
 \* observed float v (x1e6) equals num/(4*den) up to rounding
-FracEq(v6, num, den) == (v6 * 4 * den - num * 1000000) \in (0 - 4 * den)..(4 * den)
+\* (integer arithmetic kept below 2^31: num <= 1200, v6 is clamped to +-10^9 by the driver)
+FracEq(v6, num, den) == LET e == (num * 1000000) \div (4 * den) IN (v6 - e) \in (0 - 1)..1
 C09ok(ans, result, total) ==
     LET m == Merged(ans) IN
     /\ Len(result) = Len(m)
